@@ -301,6 +301,18 @@ def lib_structure(form):
     return conv(form), order(form)
 
 
+_PARSER_CACHE: dict = {}
+
+
+def cached_parser(case):
+    """One long-lived parser per configuration, as the library's own module-level default parsers are: every case parsed in
+    this process goes through the same instance, so state that leaks from one parse into the next shows up."""
+    key = (case["icpt"], tuple(case.get("flags", ["TWOSIDED", "MULTIPART"])))
+    if key not in _PARSER_CACHE:
+        _PARSER_CACHE[key] = make_parser(case)
+    return _PARSER_CACHE[key]
+
+
 def make_parser(case):
     from formulaic.parser import DefaultFormulaParser
 
@@ -395,9 +407,16 @@ def judge_algebra(case) -> Outcome:
     if case.get("avail") is not None:
         ctx["__formulaic_variables_available__"] = list(case["avail"])
     try:
-        form = Formula(case["s"], _parser=make_parser(case), _ordering=case.get("ordering", "degree"), _context=ctx)
+        form = Formula(case["s"], _parser=cached_parser(case), _ordering=case.get("ordering", "degree"), _context=dict(ctx))
         got_sorted, got_order = lib_structure(form)
     except FormulaParsingError as e:
+        # history independence: a fresh parser must agree with the long-lived one
+        try:
+            Formula(case["s"], _parser=make_parser(case), _ordering=case.get("ordering", "degree"), _context=dict(ctx))
+            out.fail("c01.parse_depends_on_history", f"{case['s']!r} is rejected by a parser that has parsed other formulas before ({str(e)[:100]!r}) but accepted by a fresh parser")
+            return out
+        except FormulaParsingError:
+            pass
         if expect_reject:
             out.see("rejected_as_expected")
         elif U:
